@@ -9,10 +9,11 @@ intro = {
  'r7': "**Seventh round (3 per property, all 20; two cooperating conditions or multi-step histories requested).**",
  'r8': "**Eighth round (3 each for the eight properties with the most recent misses).**",
  'r9': "**Ninth round (3 each for the twelve properties not in round 8).**",
+ 'r10': "**Tenth round (3 each for the eight properties not in round 9).**",
  'r5': "**Fifth round (48 changes for 12 properties; focus on remaining files, and on interactions between calls, caller-owned data, unusual argument states, error paths).**",
 }
 out = []
-for rnd in ('r3', 'r4', 'r5', 'r6', 'r7', 'r8', 'r9'):
+for rnd in ('r3', 'r4', 'r5', 'r6', 'r7', 'r8', 'r9', 'r10'):
     total = miss = 0
     rows = []
     for d in sorted(glob.glob(f'/verif/seeded/*-{rnd}-*/')):
